@@ -31,12 +31,17 @@ def env():
     return e
 
 
-def artifacts():
+_artifacts_by_profile = {}
+
+
+def artifacts(profile="release"):
     """Ask cargo for the exact artefacts it built from the current /repo tree."""
     global _artifacts
-    if _artifacts is not None:
+    if profile == "release" and _artifacts is not None:
         return _artifacts
-    p = subprocess.run(["cargo", "build", "--release", "--offline", "--lib", "--message-format=json"], cwd=HARNESS, env=env(),
+    if profile in _artifacts_by_profile:
+        return _artifacts_by_profile[profile]
+    p = subprocess.run(["cargo", "build", "--profile", profile, "--offline", "--lib", "--message-format=json"], cwd=HARNESS, env=env(),
                        stdout=subprocess.PIPE, stderr=subprocess.PIPE, text=True)
     if p.returncode != 0:
         sys.stdout.write(p.stderr[-4000:])
@@ -58,7 +63,9 @@ def artifacts():
                 # the same crate version can be built twice (host / target feature sets): the richer one is the normal dependency
                 cands.setdefault(name, []).append((len(m.get("features", [])), f))
     arts = {k: sorted(v)[-1][1] for k, v in cands.items()}
-    _artifacts = arts
+    _artifacts_by_profile[profile] = arts
+    if profile == "release":
+        _artifacts = arts
     return arts
 
 
@@ -70,9 +77,13 @@ def setup():
     return "ruint" in a
 
 
-def rustc(src, out):
-    a = artifacts()
-    cmd = ["rustc", "--edition", "2021", "-L", "dependency=" + DEPS, "-A", "warnings", "-C", "debug-assertions=on", "-C", "overflow-checks=on"]
+def rustc(src, out, profile="release"):
+    a = artifacts(profile)
+    deps = DEPS if profile == "release" else os.path.join(ROOT, "target", profile, "deps")
+    onoff = "on" if profile == "release" else "off"
+    cmd = ["rustc", "--edition", "2021", "-L", "dependency=" + deps, "-A", "warnings", "-C", f"debug-assertions={onoff}", "-C", f"overflow-checks={onoff}"]
+    if profile != "release":
+        cmd += ["-C", "opt-level=2"]
     for c in EXTERN_CRATES:
         if c in a:
             cmd += ["--extern", f"{c}={a[c]}"]
@@ -557,11 +568,87 @@ def c04_part4(tier, seed):
     return (1 if real else 0), (summary, real)
 
 
+# Well-formed types, but const-generic ARGUMENTS of a function that contradict each other (a result type too narrow for a
+# widening product, a byte-array length that is not BYTES). The library rejects these at compile time or panics; whatever
+# a changed library lets through must still be a canonical value. Compiled against BOTH library builds (with and without
+# debug assertions), because a run-time check written as `debug_assert!` only exists in one of them.
+MISSIZED = [
+    ("widening_mul 64x64->65", "Uint::<64, 1>::MAX.widening_mul::<64, 1, 65, 2>(Uint::<64, 1>::MAX)"),
+    ("widening_mul 64x64->127", "Uint::<64, 1>::MAX.widening_mul::<64, 1, 127, 2>(Uint::<64, 1>::MAX)"),
+    ("widening_mul 60x60->100", "Uint::<60, 1>::MAX.widening_mul::<60, 1, 100, 2>(Uint::<60, 1>::MAX)"),
+    ("widening_mul 32x32->40", "Uint::<32, 1>::MAX.widening_mul::<32, 1, 40, 1>(Uint::<32, 1>::MAX)"),
+    ("widening_mul 256x256->449", "Uint::<256, 4>::MAX.widening_mul::<256, 4, 449, 8>(Uint::<256, 4>::MAX)"),
+    ("widening_mul 65x64->128", "Uint::<65, 2>::MAX.widening_mul::<64, 1, 128, 2>(Uint::<64, 1>::MAX)"),
+    ("widening_mul 1x1->1", "Uint::<1, 1>::MAX.widening_mul::<1, 1, 1, 1>(Uint::<1, 1>::MAX)"),
+    ("from_be_bytes 8 bits from 2 bytes", "Uint::<8, 1>::from_be_bytes::<2>([1, 2])"),
+    ("from_le_bytes 8 bits from 2 bytes", "Uint::<8, 1>::from_le_bytes::<2>([1, 2])"),
+    ("from_be_bytes 12 bits from 1 byte", "Uint::<12, 1>::from_be_bytes::<1>([0xff])"),
+    ("from_le_bytes 65 bits from 8 bytes", "Uint::<65, 2>::from_le_bytes::<8>([0xff; 8])"),
+    ("from_be_bytes 65 bits from 16 bytes", "Uint::<65, 2>::from_be_bytes::<16>([0xff; 16])"),
+    ("from_be_bytes 12 bits, excess bits", "Uint::<12, 1>::from_be_bytes::<2>([0xff, 0xff])"),
+    ("from_le_bytes 63 bits, excess bit", "Uint::<63, 1>::from_le_bytes::<8>([0xff; 8])"),
+]
+MISSIZED_CONTROL = [("widening_mul 64x64->128", "Uint::<64, 1>::MAX.widening_mul::<64, 1, 128, 2>(Uint::<64, 1>::MAX)"), ("from_be_bytes 12 bits", "Uint::<12, 1>::from_be_bytes::<2>([0x0f, 0xff])")]
+
+
+def missized_check(args):
+    d, k, name, expr, profile = args
+    src = os.path.join(d, f"ms_{profile}_{k}.rs")
+    open(src, "w").write(
+        "use ruint::Uint;\nfn chk<const B: usize, const L: usize>(v: Uint<B, L>) { let ok = L == ruint::nlimbs(B) && (L == 0 || v.as_limbs()[L - 1] <= Uint::<B, L>::MASK); "
+        "println!(\"{} {:?}\", if ok { \"CANON\" } else { \"NONCANON\" }, v.as_limbs()); }\n"
+        f"fn main() {{ let v = std::hint::black_box({expr}); chk(v); }}\n")
+    rc, err = rustc(src, src[:-3], profile)
+    if rc != 0:
+        return (name, expr, profile, "reject", (err.strip().splitlines() or [""])[0][:160])
+    rc2, out, _ = run_bin(src[:-3])
+    if rc2 != 0:
+        return (name, expr, profile, "panic", "")
+    return (name, expr, profile, "NONCANON" if out.startswith("NONCANON") else "value", out.strip()[:200])
+
+
+def c04_part5(tier, seed):
+    t0 = time.time()
+    d = fresh_workdir("c04ms")
+    try:
+        artifacts("noassert")
+    except RuntimeError:
+        print("MACHINERY-ERROR: build of the no-assertion library failed (not a verdict)")
+        return 2, None
+    jobs = [(d, k, n, e, prof) for prof in ("release", "noassert") for k, (n, e) in enumerate(MISSIZED + MISSIZED_CONTROL)]
+    with cf.ThreadPoolExecutor(os.cpu_count() or 8) as ex:
+        res = list(ex.map(missized_check, jobs))
+    shutil.rmtree(d, ignore_errors=True)
+    ctrl = [r for r in res if (r[0], r[1]) in MISSIZED_CONTROL]
+    if any(r[3] != "value" for r in ctrl):
+        print(f"MACHINERY-ERROR: control programs of the mis-sized probe do not yield canonical values: {[r for r in ctrl if r[3] != 'value'][:2]} (not a verdict)")
+        return 2, None
+    real = 0
+    for r in res:
+        if r[3] != "NONCANON":
+            continue
+        real += 1
+        if real <= 5:
+            path = write_replay("C04", f"missized {r[0]} {r[2]}", {"kind": "non-canonical value from contradictory const-generic arguments", "expr": r[1], "profile": r[2], "observed": r[4],
+                                                                   "expected": "compile-time rejection, a panic, or a canonical value",
+                                                                   "program": f"use ruint::Uint; fn main() {{ let v = {r[1]}; println!(\"{{:?}}\", v.as_limbs()); }}"})
+            print(f"VIOLATION property=C04 replay={path}")
+            print(f"  [contradictory const-generic arguments, library built {'without' if r[2] == 'noassert' else 'with'} debug assertions] `{r[1]}` yields the non-canonical value {r[4]}")
+    summary = {"expressions": len(MISSIZED), "profiles": 2, "programs": len(jobs), "rejected_at_compile_time": sum(1 for r in res if r[3] == "reject"), "panics": sum(1 for r in res if r[3] == "panic"),
+               "canonical_values": sum(1 for r in res if r[3] == "value"), "non_canonical_values": real, "wall_s": round(time.time() - t0, 3)}
+    print(f"C04/part5 tier={tier} expressions={len(MISSIZED)} x 2 library builds: rejected={summary['rejected_at_compile_time']} panics={summary['panics']} canonical={summary['canonical_values']} violations={real} wall={time.time() - t0:.1f}s")
+    return (1 if real else 0), (summary, real)
+
+
 def c04(tier, seed):
     rc, extra = c04_part4(tier, seed)
     if rc == 2:
         return 2
     summary, real = extra
+    rc5, extra5 = c04_part5(tier, seed)
+    if rc5 == 2:
+        return 2
+    rc = max(rc, rc5)
     # merge into the evidence written by mc_canon
     path = os.path.join(ROOT, "evidence", "C04.json")
     try:
@@ -578,6 +665,11 @@ def c04(tier, seed):
     c["distinct_nontrivial"] += len(ILL_PAIRS) * summary["constructors"]
     c["programs"] = n
     c["part4_ill_formed_types"] = summary
+    c["part5_contradictory_const_generic_arguments"] = extra5[0]
+    c["states"] += extra5[0]["programs"]
+    c["transitions"] += extra5[0]["programs"]
+    c["traces_validated_against_impl"] += extra5[0]["programs"]
+    real += extra5[1]
     c["samples"] = c.get("samples", [])[:40] + [{"part4": s} for s in summary["samples"]]
     ev["violations"] = int(ev.get("violations", 0)) + real
     ev["wall_s"] = round(float(ev.get("wall_s", 0)) + summary["wall_s"], 3)
@@ -602,15 +694,16 @@ def run(prop, tier, seed):
 def replay(path):
     j = json.load(open(path))
     d = fresh_workdir("replay")
+    prof = j.get("profile") or "release"
     try:
-        artifacts()
+        artifacts(prof)
     except RuntimeError:
         return 2
     obs = []
     for k in range(2):
         src = os.path.join(d, f"r{k}.rs")
         open(src, "w").write(j["program"])
-        rc, err = rustc(src, src[:-3])
+        rc, err = rustc(src, src[:-3], prof)
         if rc != 0:
             obs.append("rejected at compile time")
         else:
@@ -625,6 +718,9 @@ def replay(path):
     print(f"  observed now: {obs[0]}   (recorded: {j.get('observed')})")
     exp = j.get("expected", "")
     ok = ("compile" in exp and obs[0].startswith("rejected")) or ("panic" in exp and obs[0] == "panics")
+    if j.get("kind", "").startswith("non-canonical value"):
+        # the program prints the limbs; the recorded observation is the non-canonical value
+        ok = obs[0].startswith("rejected") or obs[0] == "panics" or (obs[0].replace("yields ", "") not in str(j.get("observed")))
     if j.get("kind") in ("accepting", "pass-through", "nesting"):
         ok = not obs[0].startswith("rejected") and obs[0] != "panics"
         print("  (accepting case: re-run the full check to compare values)")
